@@ -4,6 +4,7 @@ import ComposeVerif.Model.C01Cycles
 import ComposeVerif.Model.C01Reset
 import ComposeVerif.Model.C01Unicity
 import ComposeVerif.Model.C01Pipeline
+import ComposeVerif.Model.C01Files
 import ComposeVerif.Gen.Tables
 import ComposeVerif.Model.Schema
 import ComposeVerif.Gen.Schema
@@ -277,7 +278,30 @@ def pipeOp : Handler := fun args =>
     | .err st => Json.mkObj [("err", st)]
     | .panic site => Json.mkObj [("panic", site)]
 
-def handlers : List (String × Handler) := [("c01reset", resetOp), ("c01unicityLoop", unicityLoopOp), ("c01pipe", pipeOp),
+/-! ### env_file / label_file of one service on a disk given as path ↦ state -/
+
+open CV.C01.Files in
+def diskOf (j : Json) : String → Disk := fun p =>
+  match getStr j p with
+  | "absent" => .absent
+  | "parentIsFile" => .parentIsFile
+  | "directory" => .directory
+  | "unreadable" => .unreadable
+  | "badSyntax" => .file false
+  | "file" => .file true
+  | _ => .absent
+
+open CV.C01.Files in
+def filesOp : Handler := fun args =>
+  let fs := diskOf (getObj args "disk")
+  let envs : List EnvFile := match getObj args "env_files" with
+    | .arr a => a.toList.map fun e => { path := getStr e "path", required := getBool e "required" }
+    | _ => []
+  match resolveService fs (getBool args "skip_env") envs (getStrList args "label_files") with
+  | .ok l => Json.mkObj [("ok", Json.arr (l.map Json.str).toArray)]
+  | .err c p => Json.mkObj [("err", c), ("path", p)]
+
+def handlers : List (String × Handler) := [("c01reset", resetOp), ("c01files", filesOp), ("c01unicityLoop", unicityLoopOp), ("c01pipe", pipeOp),
   ("c01convert", convertOp), ("c01convertTop", convertTopOp), ("c01fixEmpty", fixEmptyOp), ("c01omitEmpty", omitEmptyOp),
   ("c01tracker", trackerOp), ("c01extends", extendsOp), ("c01include", includeOp), ("c01checkCycle", checkCycleOp)]
 
